@@ -136,6 +136,7 @@ func derefNamedOwner(v *types.Var, owner *types.Named) (bool, bool) {
 func checkC17(c *Ctx, r *Report) {
 	defer checkGraphMutationSites(c, r, "C17.a")
 	defer checkEndpointsResolvedLast(c, r, "C17.b")
+	defer checkOrphanTest(c, r, "C17.b")
 	defer checkContainerFields(c, r, "C17.a")
 	w := c.W
 	r.NotDecided = append(r.NotDecided, "the invariant over operation histories (that edges, deps and revDeps denote the same edge set after any sequence of operations): an inductive argument", "agreement of Children/Parents/Descendants with a set model for every graph")
@@ -1052,4 +1053,37 @@ func checkEndpointsResolvedLast(c *Ctx, r *Report, clause string) {
 		viol = "no AddEdge whose endpoint comes from getKeyForUsage / ensureTypeNode was found (floor 1)"
 	}
 	r.add(clause, "no-reorder", "symboldg:endpoint-check-then-link", "an edge endpoint checked for presence is linked before anything that can remove nodes runs", []string{addEdge, create, rmNode}, sites, viol)
+}
+
+// checkOrphanTest: a dependant of a removed node goes with it only if none of its remaining
+// dependencies points at a node that exists: RemoveNode looks the targets of the dependant's
+// `deps` entries up in the node index (an edge to a key that was never inserted as a node - a
+// dangling reference - does not keep its source alive).
+func checkOrphanTest(c *Ctx, r *Report, clause string) {
+	w := c.W
+	const rmNode = "(*" + pkgSdg + ".SymbolGraph).RemoveNode"
+	fi := need(c, r, clause, rmNode)
+	if fi == nil {
+		return
+	}
+	viol := "RemoveNode no longer looks the targets of a dependant's remaining dependencies up in the node index before deciding that it is orphaned (a dependant whose only dependencies dangle is then kept, or one with a live dependency evicted)"
+	var sites []string
+	allInstrs(fi.SSA, true, func(_ *ssa.Function, _ *ssa.BasicBlock, _ int, ins ssa.Instruction) {
+		lk, ok := ins.(*ssa.Lookup)
+		if !ok || !lk.CommaOk {
+			return
+		}
+		if !sliceOf(lk.X).hasFieldNamed("nodes") {
+			return
+		}
+		// the key comes from iterating a deps entry
+		if sliceOf(lk.Index).hasFieldNamed("deps") {
+			sites = append(sites, w.pos(lk.Pos()))
+			viol = ""
+		}
+	})
+	if len(sites) == 0 {
+		sites = []string{w.pos(fi.Decl.Pos())}
+	}
+	r.add(clause, "fieldflow", rmNode+":orphan-test-consults-nodes", "the orphan decision checks the dependant's remaining dependencies against the node index", []string{rmNode}, sites, viol)
 }
